@@ -32,7 +32,8 @@ Client side (mirrors the Python literally)
 Values.  Doubles/floats are their BIT PATTERNS (x, y, z: 64 bits; yaw, pitch: 32 bits): the reactor
 only copies them, and `struct.unpack('>d')`/`pack('>d')` is a bijection on patterns; for `'>f'`
 Python widens to a double and narrows back, which preserves every non-NaN pattern — the
-normalisation of NaN payloads by that float32→double→float32 trip is OUTSIDE the model.  `flags` is
+normalisation of NaN payloads by that float32→double→float32 trip (a signalling NaN is quieted:
+yaw pattern `7fa00000` is echoed as `7fe00000`) is OUTSIDE the model.  `flags` is
 the octet.  A keep-alive id is carried in `PlayEv.keepAlive`/`Reply.keepAlive` as a `Nat`: for the
 VarInt layout it is the number `VarInt.read` returns (this library's `VarInt.read` does NOT
 sign-extend: a Java server's negative id arrives as its unsigned 32-bit pattern, and `VarInt.send`
